@@ -15,14 +15,17 @@ def _v(name, buf, mode, forced, dq, dt, thorough_only=False, extra=()):
 reg("C15",
     level="model_checking",
     technique="explicit-state BFS (state de-duplication on the byte image) over the real ll_data_pdu_buffer<TX,RX,Radio>, driven like the nrf52 radio interrupt handler drives it, against an independent central (SN/NESN protocol, numbered payloads) and an upper-layer log; step oracles on every transition plus a fault-free drain run (bounded liveness) from every reachable state",
-    rule="state = byte image of the real buffer object (rings, SN/NESN bits, counters) + fallback receive buffer + reference model; one transition = one connection event = upper-layer action {none, commit 1 byte, commit 27 bytes, consume, consume after the receive buffer was allocated, new connection = buffer memory reused for advertising + reset_pdu_buffer()} x central {new data, new empty, repeat last PDU, new non-empty PDU with LLID 0} x fault c->p {ok, lost, CRC error, MIC error} x fault p->c {ok, lost}; classes = (ISR path, new/resent data/empty, ack/nak, transmit ring released, kind of answer, central acknowledged). oracle C15: NESN only changes for a new PDU handed to received() (never on CRC error / full receive buffer / resent PDU); receive ring == acknowledged-and-not-consumed PDUs after every event (nothing lost, duplicated, reordered, corrupt); next_received() hands up exactly that sequence; a PDU leaves the transmit ring only in an event with a valid header and only after the central accepted it; the central accepts committed PDUs exactly once, in order, intact; drain: fault free continuation delivers everything",
-    bound="every sequence may contain one new connection (reset_pdu_buffer() on the same object, central restarts with SN=NESN=0) and one non-empty PDU with the reserved LLID 0 (quick units mix58 / mix87: new connection only). quick: TX=RX=29 all reachable states (fixpoint, incl. a central repeating acknowledged PDUs); TX=RX=58 both directions 6 connection events, 87 both directions 5, 58 with a central that also repeats acknowledged PDUs 4; receive direction alone (nothing committed): 58 12 events, 87 8 events; transmit direction alone (central sends empty PDUs): 58 7 events, 87 8 events; real nrf52 ISR as device under test: 58 both directions 4 events. thorough: 58 both directions 9 events (alphabet without new connection / LLID 0) and 7 events (with them), 61 (library default) 6, 87 6, repeated-acknowledged variant 6; receive direction alone: fixpoint = all reachable states for 58 (also with repeated acknowledged PDUs) and 87, 87 with repeated acknowledged PDUs 12 events; transmit direction alone 9 (58) / 12 (87) events; real ISR: 58 7 events, 87 6, receive direction fixpoint, transmit direction 9. Payload ids and packet counters modulo 4.",
+    rule="state = byte image of the real buffer object (rings, SN/NESN bits, counters) + fallback receive buffer + reference model; one transition = one connection event = upper-layer action {none, commit 1 byte, commit 27 bytes, consume, consume after the receive buffer was allocated, new connection = buffer memory reused for advertising + reset_pdu_buffer(), commit 1 byte / consume with the radio interrupt of this event arriving when the call takes its lock_guard} x central {new data, new empty, repeat last PDU, new non-empty PDU with LLID 0} x fault c->p {ok, lost, CRC error, MIC error} x fault p->c {ok, lost}; classes = (ISR path, new/resent data/empty, ack/nak, transmit ring released, kind of answer, central acknowledged). oracle C15: NESN only changes for a new PDU handed to received() (never on CRC error / full receive buffer / resent PDU); receive ring == acknowledged-and-not-consumed PDUs after every event (nothing lost, duplicated, reordered, corrupt); next_received() hands up exactly that sequence; a PDU leaves the transmit ring only in an event with a valid header and only after the central accepted it; the central accepts committed PDUs exactly once, in order, intact; drain: fault free continuation delivers everything",
+    bound="every sequence may contain one new connection (reset_pdu_buffer() on the same object, central restarts with SN=NESN=0) and one non-empty PDU with the reserved LLID 0 (quick units mix58 / mix87: new connection only). units mix58_87 / mix87_58: TransmitSize != ReceiveSize, both directions, 5 events (thorough 6). quick: TX=RX=29 all reachable states (fixpoint, incl. a central repeating acknowledged PDUs); TX=RX=58 both directions 6 connection events, 87 both directions 5, 58 with a central that also repeats acknowledged PDUs 4; receive direction alone (nothing committed): 58 12 events, 87 8 events; transmit direction alone (central sends empty PDUs): 58 7 events, 87 8 events; real nrf52 ISR as device under test: 58 both directions 4 events. thorough: 58 both directions 9 events (alphabet without new connection / LLID 0) and 7 events (with them), 61 (library default) 6, 87 6, repeated-acknowledged variant 6; receive direction alone: fixpoint = all reachable states for 58 (also with repeated acknowledged PDUs) and 87, 87 with repeated acknowledged PDUs 12 events; transmit direction alone 9 (58) / 12 (87) events; real ISR: 58 7 events, 87 6, receive direction fixpoint, transmit direction 9. Payload ids and packet counters modulo 4.",
     units=[dict(src="harness/C15_ll_buffer.cpp", defs=["ORACLE=15"],
                 variants=[_v("mix29", 29, 0, 1, 40, 40),
-                          _v("mix58", 58, 0, 0, 6, 9, extra=["LLID0_Q=0", "RESETS_T=0", "LLID0_T=0"]),   # quick: with new connection; thorough: the plain alphabet to 9 events
+                          _v("mix58", 58, 0, 0, 6, 9, extra=["LLID0_Q=0", "RESETS_T=0", "LLID0_T=0", "IRQ_T=0"]),   # quick: with new connection; thorough: the plain alphabet to 9 events
                           _v("mix58x", 58, 0, 0, 6, 7, thorough_only=True),                # thorough: with new connection / LLID 0
                           _v("mix87", 87, 0, 0, 5, 6, extra=["LLID0_Q=0"]),
                           _v("mix58f", 58, 0, 1, 4, 6),
+                          # transmit and receive memory of different size ( the two rings share one array )
+                          _v("mix58_87", 58, 0, 0, 5, 6, extra=["TXBUF=58", "RXBUF=87", "LLID0_Q=0", "RESETS_Q=0"]),
+                          _v("mix87_58", 58, 0, 0, 5, 6, extra=["TXBUF=87", "RXBUF=58", "LLID0_Q=0", "RESETS_Q=0"]),
                           _v("mix61", 61, 0, 0, 6, 6, thorough_only=True),
                           _v("rx58", 58, 1, 0, 12, 60),
                           _v("rx58f", 58, 1, 1, 60, 60, thorough_only=True),
@@ -38,6 +41,8 @@ reg("C15",
                           _v("isr58txf", 58, 2, 1, 7, 9, thorough_only=True)])],
     quick_deadline=40, thorough_deadline=560,
     assumptions=[
+        "interrupted calls: the harness owns Radio::lock_guard; when armed, the constructor of the guard first runs the radio's part of the connection event (interrupt arrives while the main context is about to take the lock); on correct code this equals 'interrupt, then call'",
+        "placement: allocate_transmit_buffer() has to return memory inside the first TransmitSize bytes of raw_pdu_buffer(), allocate_receive_buffer() inside the ReceiveSize bytes behind them",
         "units isr*: nrf52_radio_base is instantiated on the host with a fake Hardware (scripted received_pdu(), recorded configure_receive_train / configure_final_transmit) and zero initialised storage (radio objects are static on the target); the real ISR stays silent on a CRC error (treated like a lost PDU), the transcribed table of the other units answers with next_transmit() - both are explored",
         "driver = decision table of nrf52_radio_base::radio_interrupt_handler (state evt_wait_connect): no anchor -> nothing called; fallback receive buffer or CRC error -> next_transmit(); valid PDU -> received(); CRC ok + MIC bad -> acknowledge(); one PDU pair per connection event; receive buffer allocated when the event is scheduled",
         "the central obeys the SN/NESN rules (new PDU only after the acknowledge); variants *f add a central that repeats an already acknowledged PDU",
